@@ -64,6 +64,8 @@ type Frame struct {
 	Data    []byte `json:"data"`
 	// Injected frames did not come out of a library Send call.
 	Injected bool `json:"injected,omitempty"`
+	// Note is a harness-side label (e.g. which of two instances behind one identifier sent the frame); never on the wire.
+	Note string `json:"note,omitempty"`
 	// The library's own transport queues the slices it is given and writes them to the socket later; it does not
 	// copy at Send time. The simulated transport does the same: Data/Topic are the snapshot taken at Send time (what
 	// every oracle calls "sent"), liveData/liveTopic are the caller's slices, read when the frame is delivered. A
